@@ -25,6 +25,7 @@ def run(R, env):
     R.rule("C02.R4", "recover: the packet whose amount is added to the re-sent total is removed from INFLIGHT_PACKETS under its own sequence in the same iteration; the re-sent coin is that total; receiver is the validated receiver")
     R.rule("C02.R5", "ReceiveUnstakedTokens: received_native_unstaked := Some(amount of the ibc-denom coin in info.funds)")
     R.rule("C02.R6", "value-moving messages (mint, burn, create-denom, bank send, IBC transfer) are constructed only at the reviewed sites")
+    R.rule("C02.R7", "refunded transfers: ack / timeout callbacks mark only the contract's own packets on its own channel as refundable, and recovery re-sends exactly the refundable packets of one receiver and one denom (rule bodies of C07.R4-R7)")
     R.assume("balance equality over histories is not decided (no bank exists statically); these are the per-transition conservation steps")
     sites = shared.site_contexts(prog, CRATE, env)
     for need in ("Withdraw", "ReceiveRewards", "FeeWithdraw", "RecoverPendingIbcTransfers", "ReceiveUnstakedTokens"):
@@ -33,6 +34,9 @@ def run(R, env):
             return
     shared.withdraw_rules(R, env, prog, sites["Withdraw"], "C02.R1", "C02")
 
+    from engine.runner import Remap
+    from . import C07
+    C07.run(Remap(R, {"C07.R4": "C02.R7", "C07.R5": "C02.R7", "C07.R6": "C02.R7", "C07.R7": "C02.R7"}), env)
     fee_worlds(R, env, prog, sites, "C02.R2")
     fee_withdraw(R, env, prog, sites, "C02.R3")
     recover_and_rest(R, env, prog, sites)
